@@ -303,7 +303,9 @@ class CNF(SimpleSequence[Clause]):
         <https://people.sc.fsu.edu/~jburkardt/data/cnf/cnf.html>`_.
         """
         if fresh_variable_count is None:
-            fresh_variable_count = self._num_vars
+            # `_num_vars` counts distinct variables after some operations, so
+            # never declare fewer variables than the clauses mention.
+            fresh_variable_count = max([self._num_vars] + [abs(int(var)) for clause in self._vals for var in clause])
         header = f"p cnf {fresh_variable_count} {len(self)}\n\n"
         return header + str(self)
 
